@@ -118,6 +118,20 @@ pub fn generate(tier: Tier, rng: &mut Rng) -> Vec<Case> {
     ] {
         push(src.to_string(), "catalogue");
     }
+    // a macro that fails (bad binder, wrong use of has) inside the argument slot another macro
+    // validates: the outer expander sees a placeholder, and must still report a positioned error
+    {
+        let bad = ["has(a)", "has(1)", "[2].all(3, true)", "y.filter(1, z)", "[1].map(x.y, 1)", "has(has(a))", "[1].exists_one(1 + 1, true)"];
+        for b in bad {
+            for src in [format!("has({b})"), format!("[1].all({b}, true)"), format!("x.map({b}, 1)"), format!("[].exists({b}, true)"), format!("[1].map(x, {b})"), format!("[1].filter({b}, {b})"), format!("[1].map({b}, {b}, {b})"), format!("{b}.all(x, true)"), format!("'éé' + has({b})")] {
+                push(src, "nested-bad-macro");
+            }
+        }
+    }
+    // white-space-only and comment-only sources of several lines
+    for src in ["\n", "\n\n", " \n", "\t\n  \n", "\r\n", " \n \n ", "\n// c", "// c\n", "// c\n\n", "\u{c}\n"] {
+        push(src.to_string(), "blank-lines");
+    }
     // characters that are white space for Unicode but not for CEL (only TAB, LF, FF, CR, SPACE
     // are), in every position of an otherwise valid text: each must be a token recognition error
     for ws in ["\u{a0}", "\u{b}", "\u{85}", "\u{1680}", "\u{2000}", "\u{2003}", "\u{200a}", "\u{2028}", "\u{2029}", "\u{202f}", "\u{205f}", "\u{3000}", "\u{feff}", "\u{200b}", "\u{1c}", "\u{1f}"] {
